@@ -128,6 +128,7 @@ class Program:
         # evaluated away once, for all engines (sa/desugar.py); VERIF_NODESUGAR=1 analyses the trees as written
         from . import desugar
         self.desugar_stats = desugar.desugar({k: m.tree for k, m in self.mods.items()})
+        self.desugarer = self.desugar_stats.pop("_desugarer", None)
         for m in self.mods.values():
             self._index(m)
         self._callgraph = None
